@@ -1,11 +1,30 @@
 //! vharness — runs ruma's real implementation on generated cases and records its outcome
 //! next to each case, for comparison with the Coq models.  Also dumps the compiled tables the
 //! translator turns into `coq/Gen/*.v`.
-mod c04;
 mod dump;
-mod jgen;
-mod rng;
-mod sx;
+pub mod jgen;
+pub mod rng;
+pub mod sx;
+
+/// One module per property: `run` (generate cases + implementation outcomes), `replay`
+/// (one recorded case), `dump` (compiled constants for the translator).
+macro_rules! props {
+    ($($m:ident => $id:literal),* $(,)?) => {
+        $(mod $m;)*
+        fn run_prop(id: &str, tier: &str, seed: u64, em: &mut Emitter) -> bool {
+            match id { $($id => { $m::run(tier, seed, em); true })* _ => false }
+        }
+        fn replay_prop(id: &str, case: &Sx) -> Option<Sx> {
+            match id { $($id => $m::replay(case),)* _ => None }
+        }
+        pub fn dump_all(dir: &str) { $($m::dump(dir);)* }
+    };
+}
+props!(
+    c01 => "C01", c02 => "C02", c03 => "C03", c04 => "C04", c05 => "C05", c06 => "C06", c07 => "C07",
+    c08 => "C08", c09 => "C09", c10 => "C10", c11 => "C11", c12 => "C12", c13 => "C13", c14 => "C14",
+    c15 => "C15", c16 => "C16", c17 => "C17", c18 => "C18", c19 => "C19", c20 => "C20",
+);
 
 use std::{
     collections::BTreeMap,
@@ -77,10 +96,7 @@ fn replay_file(prop: &str, path: &str, em: &mut Emitter) {
             eprintln!("corpus: unparsable line in {path}");
             continue;
         };
-        let out = match prop {
-            "C04" => c04::replay(&case),
-            _ => None,
-        };
+        let out = replay_prop(prop, &case);
         match out {
             Some(o) => em.emit("corpus", case, o),
             None => eprintln!("corpus: case not decodable for {prop} in {path}"),
@@ -114,12 +130,9 @@ fn main() {
                     }
                 }
             }
-            match prop.as_str() {
-                "C04" => c04::run(&tier, seed, &mut em),
-                _ => {
-                    eprintln!("unknown property {prop}");
-                    std::process::exit(2);
-                }
+            if !run_prop(&prop, &tier, seed, &mut em) {
+                eprintln!("unknown property {prop}");
+                std::process::exit(2);
             }
             em.finish(&dir);
         }
